@@ -3,11 +3,21 @@
     xxh <bytes>                         -> 16 hex digits            xxhash.Sum64String
     rv <k> <key> <servers>              -> <servers>                RendezvousHash(key, servers, k)
     own <key> <servers>                 -> <name> | panic           RendezvousHash(key, servers, 1)[0]
+    sync <servers> <me> <keys>          -> <names>                  node database records `user/collection` held by server
+                                                                    number me, which runs Sync; answer = the server holding
+                                                                    key i afterwards (afterSync = owner user)
+    shsync <servers> <me> <paths>       -> <names>                  the same for shard directories `user/collection/shard`
+    req <kind> <servers> <up> <via> <user> <col>          -> <name> | fail    a user-level request (create get list delete mkshard)
+                                                                    issued at server number via while exactly the servers with
+                                                                    up[i] = 1 answer: the server that served it (route user)
+    shreq <kind> <servers> <up> <via> <user> <col> <shard> -> <name> | fail   a shard-level request (info insert search update delpts)
   <bytes>   = hex | "-" (empty)
+  <me>, <via> = index into <servers>;  <keys>, <paths> = comma separated hex;  <up> = one 0/1 per server
   <servers> = "-" (empty list) | comma separated names, each hex or "." (the empty name)
 -/
 import SemaModel.Base.DriverUtil
 import SemaModel.C13.Model
+import SemaModel.C13.Sites
 namespace Sema.C13
 open Sema
 
@@ -18,6 +28,30 @@ def servers? (s : String) : Option (List Bytes) :=
 def showName (b : Bytes) : String := if b.isEmpty then "." else hexOfBytes b
 def showServers (l : List Bytes) : String := if l.isEmpty then "-" else ",".intercalate (l.map showName)
 
+def keys? (s : String) : Option (List Bytes) := (s.splitOn ",").mapM bytesOfHex
+def upSet (ss : List Bytes) (mask : String) : List Bytes :=
+  (ss.zip mask.toList).filterMap (fun (s, c) => if c == '1' then some s else none)
+
+/-- final holder of every key, `holder me key` being the model's answer for a key held by `me` -/
+def syncAnswer (holder : Bytes → Bytes → Option Bytes) (ss : List Bytes) (me : Nat) (keys : List Bytes) : String :=
+  if me ≥ ss.length then "bad-op" else
+  ",".intercalate (keys.map fun k =>
+    match holder (ss.getD me []) k with
+    | some d => showName d
+    | none => "panic")
+
+/-- a record `user/collection` held by `me`: where `me`'s sync loop (syncPlan) leaves it -/
+def recHolder (ss : List Bytes) (me k : Bytes) : Option Bytes :=
+  (recDest xxh ss k).map fun _ => afterSync xxh ss me k
+/-- a shard directory: routed by its last segment -/
+def shardHolder (ss : List Bytes) (_me p : Bytes) : Option Bytes := shardDest xxh ss p
+
+def routeAnswer (key : Bytes) (ss : List Bytes) (mask : String) : String :=
+  if mask.length != ss.length then "bad-op" else
+  match route xxh key ss (upSet ss mask) with
+  | some s => showName s
+  | none => "fail"
+
 def step (line : String) : String :=
   let bad := "bad-op"
   match line.trimAscii.toString.splitOn " " with
@@ -27,6 +61,18 @@ def step (line : String) : String :=
       | _, _, _ => bad
   | ["own", key, ss] => match bytes? key, servers? ss with
       | some key, some ss => match owner xxh key ss with | some o => showName o | none => "panic"
+      | _, _ => bad
+  | ["sync", ss, hs, ks] => match servers? ss, hs.toNat?, keys? ks with
+      | some ss, some hs, some ks => syncAnswer (recHolder ss) ss hs ks
+      | _, _, _ => bad
+  | ["shsync", ss, hs, ps] => match servers? ss, hs.toNat?, keys? ps with
+      | some ss, some hs, some ps => syncAnswer (shardHolder ss) ss hs ps
+      | _, _, _ => bad
+  | ["req", _kind, ss, up, _via, user, _col] => match servers? ss, bytes? user with
+      | some ss, some user => routeAnswer user ss up
+      | _, _ => bad
+  | ["shreq", _kind, ss, up, _via, _user, _col, shard] => match servers? ss, bytes? shard with
+      | some ss, some shard => routeAnswer shard ss up
       | _, _ => bad
   | _ => bad
 
